@@ -99,7 +99,10 @@ def c01(ctx):
     W, R, NL = ctx.q((24, 4, 12), (70, 16, 120))
     builds = build_set(ctx, ctx.q(["prod", "gcc-O2", "asan-gcc"], ["prod"] + MATRIX + ["asan-gcc", "asan-clang"]))
     run_harness_on(ctx, "h_aead.c", builds, ["--mode", "rt", "--p1", W, "--p2", R, "--p3", NL], ctx.q(6, 16))
-    ctx.rule = AEAD_RULE + " Battery: encrypt -> length check -> decrypt (separate and in-place) -> compare; in-place encrypt == out-of-place."
+    if ctx.thorough:
+        # lengths >= 2^32: a 2^32+5 byte message encrypted and decrypted in place, each key size (exact round-trip oracle)
+        run_harness_on(ctx, "h_aead.c", build_set(ctx, ["prod"]), ["--mode", "rt,hugemsg"], 3, hname="h_aead-huge", timeout=5000)
+    ctx.rule = AEAD_RULE + " Long cases: fixed lengths {65535..65539, 128 KiB+2, 256 KiB, 256 KiB+5, 1 MiB+1} for every variant + random; thorough also 2^32+5 bytes in place. Battery: encrypt -> length check -> decrypt (separate and in-place) -> compare; in-place encrypt == out-of-place."
     ctx.exhaustive = False
     ctx.assumptions += ["overlapping-but-not-identical buffers are outside the contract and never generated",
                         "contents and lengths above the window are sampled"]
@@ -120,6 +123,9 @@ def c02(ctx):
     p = ctx.prod()
     exe = ctx.harness("h_aead-prod-shared", "h_aead.c", None, cc="gcc", ldflags=["-L" + p["sodir"], "-ltinyjambu", "-Wl,-rpath," + p["sodir"]])
     ctx.run_jobs(batch_jobs(ctx, exe, "prod-cmake-Release-shared", ["--mode", "model", "--p1", W, "--p2", 1, "--p3", 4], 4))
+    if ctx.thorough:
+        # AD of 2^32+7 bytes for all six variants: relational oracle against length truncation / ignored bytes
+        run_harness_on(ctx, "h_aead.c", build_set(ctx, ["prod"]), ["--mode", "model,hugead"], 6, hname="h_aead-huge", timeout=5000)
     ctx.rule = AEAD_RULE + (" Oracle: bit-serial NLFSR model written from the specification (pinned to KATs); every case: library "
                             "ciphertext||tag == model, a second encryption is identical, the model's packet (foreign encryptor) opens to the model's plaintext.")
     ctx.exhaustive = False
@@ -779,7 +785,7 @@ def c06(ctx):
                 "class = (api, length tuple, placement rotation).")
     ctx.exhaustive = False
     ctx.assumptions += ["UBSan nonnull-attribute (and clang pointer-overflow for NULL+0) are disabled: memcpy/explicit_bzero(NULL, .., 0) on permitted NULL/0 arguments touches no byte and is outside the property",
-                        "red-zone tools cannot see intra-object overflows inside the library's private structs", "lengths >= 2^32 are not run"]
+                        "red-zone tools cannot see intra-object overflows inside the library's private structs", "lengths >= 2^32 are run only for AEAD/SIV (C01/C02 thorough), not for hash/KDF/PRNG"]
 
 
 # ---------------------------------------------------------------------------------- C07
